@@ -13,16 +13,18 @@ FORMAT = ("kinds 1..3 [kind 1=AimdController 2=Aimd 3=Vegas; p0..p6 (initial, mi
           "4 rmw; return value of the call completed by this step or -1; limit()] after the prelude's return values, per worker [steps; results], "
           "[limit()].  kind 4 [4; initial; min; max; increase_by; dec_num; dec_den; threshold_ms; (op a b)*] "
           "op 1 poll_ready 2 call a 3 poll a 4 complete a b(0 ok 1 err 2 panic) 5 drop a 6 advance a ms "
-          "7 inner readiness a(0 ready 1 pending 2 err) 8 call a with panicking inner.call() -> per event "
+          "7 inner readiness a(0 ready 1 pending 2 err) 8 call a with panicking inner.call() 9 algorithm()."
+          "record_failure() 10 algorithm().record_success(0) (feedback not caused by this service's calls) -> per event "
           "[code; in_flight(); limit()] + after dropping everything [probe poll_ready code; in_flight(); limit()]; "
           "codes 10 Pending(inner) 11 Ready 12 Err 13 Pending(at limit) 20 created 21 id in use 26 inner.call() "
-          "panicked 30 Pending 31 Ok 32 Err 35 panicked 39 not alive 40 50 dropped 59 nothing 60 70")
+          "panicked 30 Pending 31 Ok 32 Err 35 panicked 39 not alive 40 50 dropped 59 nothing 60 70 80 81")
 RULE = ("algorithms: exhaustive schedules for 2-3 workers x <=2 feedback calls, random schedules for up to 4 "
         "workers x 6 calls (successes, slow successes, failures, record_successes, limit reads), limits at "
         "min/max, factors 0..1 and >1, Vegas with >= 10 warm-up samples so that adjust_limit runs, power-of-two "
         "RTTs; service: exhaustive event words up to length 3-5 over two call ids plus random histories with "
         "drops at every point, panicking inner futures and panicking inner.call(), slow responses around the latency threshold, inner "
-        "readiness Pending/Err; non-trivial = two workers interleaved, or a call ended by drop/panic/error")
+        "readiness Pending/Err, feedback reaching the shared algorithm from outside (limit moves while calls are "
+        "in flight, poll_ready checked before any own call starts or completes); non-trivial = two workers interleaved, or a call ended by drop/panic/error")
 TRUSTED = [
     "verif-hooks atomics (see C08); per-location sequential consistency; Vegas' cross-location reads (min_rtt, "
     "smoothed, sample_count, limit) are modelled as interleaved single-location operations",
@@ -112,6 +114,16 @@ def corpus():
     # in_flight() stayed 2 and the probe was Pending for ever)
     out.append(mk_svc([2, 1, 2, 1, 1, 2, 100], [(8, 0, 0), (1, 0, 0), (8, 1, 0), (1, 0, 0)]))
     out.append(mk_svc([1, 1, 2, 1, 1, 2, 100], [(2, 0, 0), (8, 1, 0), (1, 0, 0), (5, 0, 0), (8, 2, 0), (1, 0, 0)]))
+    # the limit moves without a call/completion of this service (shared algorithm): two calls in
+    # flight at limit 3, an external failure lowers the limit to 1 < in_flight: poll_ready must be
+    # Pending; external successes raise it above in_flight: poll_ready must be Ready.
+    # (a poll_ready that compares with a limit cached at the service's own calls gets both wrong)
+    out.append(mk_svc([3, 1, 4, 1, 1, 2, 100],
+                      [(2, 0, 0), (2, 1, 0), (1, 0, 0), (9, 0, 0), (1, 0, 0), (10, 0, 0), (1, 0, 0),
+                       (10, 0, 0), (1, 0, 0)]))
+    out.append(mk_svc([1, 1, 3, 1, 1, 2, 100],
+                      [(2, 0, 0), (1, 0, 0), (10, 0, 0), (1, 0, 0), (9, 0, 0), (1, 0, 0)]))
+    out.append(mk_svc([2, 0, 2, 1, 0, 1, 100], [(1, 0, 0), (9, 0, 0), (1, 0, 0), (10, 0, 0), (1, 0, 0)]))
     # slow success (latency > threshold) is a congestion signal
     out.append(mk_svc([4, 1, 8, 1, 1, 2, 10],
                       [(2, 0, 0), (6, 11, 0), (4, 0, 0), (3, 0, 0), (2, 1, 0), (6, 10, 0), (4, 1, 0), (3, 1, 0)]))
@@ -155,7 +167,7 @@ def rand_ctl_cfg(rng):
 RTTS = [1 << k for k in range(10, 21)]
 
 SVC_ALPHA = [(1, 0, 0), (2, 0, 0), (3, 0, 0), (4, 0, 0), (4, 0, 1), (4, 0, 2), (5, 0, 0),
-             (2, 1, 0), (3, 1, 0), (4, 1, 0), (5, 1, 0), (8, 2, 0)]
+             (2, 1, 0), (3, 1, 0), (4, 1, 0), (5, 1, 0), (8, 2, 0), (9, 0, 0), (10, 0, 0)]
 
 
 def rand_service(rng):
@@ -182,11 +194,45 @@ def rand_service(rng):
             evs.append((5, a, 0))
         elif x < 0.92:
             evs.append((6, rng.choice([1, 4, 5, 6, 10, 11]), 0))
-        elif x < 0.97:
+        elif x < 0.96:
             evs.append((7, rng.choice([0, 0, 1, 2]), 0))
-        else:
+        elif x < 0.98:
             evs.append((8, a, 0))
+        else:
+            evs.append((rng.choice([9, 10]), 0, 0))
+            evs.append((1, 0, 0))
     return mk_svc([init, mn, mx, rng.choice([1, 1, 2]), num, den, thr], evs)
+
+
+def ext_feedback_service(rng):
+    """calls in flight up to (or near) the limit, then feedback that reaches the shared algorithm
+    from outside, with a readiness check after every limit move and before own calls/completions"""
+    mx = rng.choice([2, 3, 4, 6])
+    mn = rng.choice([0, 1, 1, 2 if mx > 2 else 1])
+    init = rng.choice([mx, mx, max(mn, mx - 1), max(mn, 2)])
+    num, den = rng.choice([(1, 2), (1, 2), (0, 1), (3, 4), (1, 4), (1, 1)])
+    inc = rng.choice([1, 1, 2])
+    evs = []
+    nxt = 0
+    fill = rng.choice([init, init, max(0, init - 1), init + 1])
+    for _ in range(fill):
+        if rng.random() < 0.5:
+            evs.append((1, 0, 0))
+        evs.append((2, nxt, 0)); nxt += 1
+    evs.append((1, 0, 0))
+    for _ in range(rng.randint(2, 10)):
+        x = rng.random()
+        if x < 0.4:
+            evs.append((9, 0, 0))
+        elif x < 0.8:
+            evs.append((10, 0, 0))
+        elif x < 0.9 and nxt > 0:
+            a = rng.randrange(nxt)
+            evs.append(rng.choice([(5, a, 0), (4, a, rng.choice([0, 1, 2])), (3, a, 0)]))
+        else:
+            evs.append((2, nxt, 0)); nxt += 1
+        evs.append((1, 0, 0))
+    return mk_svc([init, mn, mx, inc, num, den, 100000], evs)
 
 
 def generate(rng, tier):
@@ -271,6 +317,8 @@ def generate(rng, tier):
             out.append(mk_svc([1, 1, 2, 1, 1, 2, 100], w))
     for _ in range(20000 if thorough else 1200):
         out.append(rand_service(rng))
+    for _ in range(8000 if thorough else 600):
+        out.append(ext_feedback_service(rng))
     return out
 
 
@@ -355,7 +403,7 @@ def monitor_svc(s, t):
                 if r != want:
                     return "event %d: poll_ready returned %d with in_flight %d < limit %d and inner readiness %d" % (
                         k, r, prev_inflight, prev_limit, inner)
-        elif op == 2 or op == 8 or op not in (1, 3, 4, 5, 6, 7):
+        elif op == 2 or op == 8 or op not in (1, 3, 4, 5, 6, 7, 9, 10):
             if a in used:
                 if r != 21:
                     return "event %d: reused id gave %d" % (k, r)
@@ -385,6 +433,9 @@ def monitor_svc(s, t):
                 return "event %d: drop of a finished/unknown call gave %d" % (k, r)
         elif op == 7:
             inner = a
+        elif op in (9, 10):
+            if r != {9: 80, 10: 81}[op]:
+                return "event %d: external feedback gave code %d" % (k, r)
         # the property: in_flight = calls created and not yet finished / failed / panicked / dropped
         if infl != len(live):
             return "after event %d in_flight() = %d but %d calls are in flight (%s)" % (k, infl, len(live), sorted(live))
@@ -409,7 +460,7 @@ def monitor(s, t):
 def nontrivial(s, t):
     if s[0] == 4:
         codes = t[0::3]
-        return any(c in (32, 35, 50, 13) for c in codes)
+        return any(c in (32, 35, 50, 13, 80, 81) for c in codes)
     kind, params, pre, progs, sched = parse(s)
     sp = split_trace(s, t)
     if sp is None:
@@ -427,6 +478,16 @@ def classify(s, t):
                 out.append(name)
         kind, params, evs, _, _ = parse(s)
         lims = t[2::3]
+        infl = t[1::3]
+        for k, e in enumerate(evs):
+            if e[0] in (9, 10) and k + 1 < len(evs) and evs[k + 1][0] == 1 and k > 0:
+                moved = lims[k] != lims[k - 1]
+                if e[0] == 9 and moved and infl[k] >= lims[k] and infl[k] < lims[k - 1] and infl[k] > 0:
+                    out.append("ext_failure_closes_readiness_with_calls_in_flight")
+                if e[0] == 10 and moved and infl[k] < lims[k] and infl[k] >= lims[k - 1] and infl[k] > 0:
+                    out.append("ext_success_opens_readiness_with_calls_in_flight")
+        if any(e[0] in (9, 10) for e in evs):
+            out.append("external_feedback")
         if any(b < a for a, b in zip(lims, lims[1:])):
             out.append("limit_decreased")
         if any(b > a for a, b in zip(lims, lims[1:])):
